@@ -28,7 +28,7 @@ COMPONENTS = {
     'stub': ['SimLoop', 'SimSocket', 'scripted server (one scripted reply per '
              'command / per end-of-data)'],
 }
-BUDGET = {'quick': 10000, 'thorough': 800000}
+BUDGET = {'quick': 30000, 'thorough': 800000}
 PROBES = ['pipelining', 'no-pipelining', 'lmtp', 'lmtp-rejected-rcpt',
           'multi-line-reply', 'error-reply-mid-pipeline', 'unsolicited-reply',
           'replies-in-one-burst', 'second-transaction', 'empty-data']
@@ -64,12 +64,15 @@ def generate(seed, tier='quick'):
                       'reply': gen_reply(rng, '250', 0.15)})
         nr = rng.randint(1, 4)
         for r in range(nr):
+            # any 2xx accepts a recipient (251 "will forward", 252)
             steps.append({'m': 'rcpt', 'addr': 'r%d.%d@b.example' % (t, r),
-                          'reply': gen_reply(rng, '250', 0.3)})
+                          'reply': gen_reply(rng, rng.choice(
+                              ['250', '250', '251', '252']), 0.3)})
         steps.append({'m': 'data', 'reply': gen_reply(rng, '354', 0.2)})
         body = rng.choice(['', 'Subject: x\r\n\r\nbody\r\n',
                            'a\r\n.\r\n..b\r\nno newline'])
-        eod = [gen_reply(rng, '250', 0.3) for _ in range(nr if lmtp else 1)]
+        eod = [gen_reply(rng, rng.choice(['250', '250', '251']), 0.3)
+               for _ in range(nr if lmtp else 1)]
         steps.append({'m': 'send', 'body': body, 'eod': eod})
         if rng.random() < 0.4:
             steps.append({'m': 'rset', 'reply': gen_reply(rng, '250', 0.1)})
